@@ -160,6 +160,8 @@ Definition apply_op (o : opn) (args : list val) (ia : list (list nat)) : val :=
   | OTr, [VM x] => VM (transpose x)
   | OTr, [VT _] => VErr EArgs
   | OEye, [] => match ia with [ns] => VM (eye_ttm ns) | _ => VErr EModel end
+  | OMul, [VT x; VD s] | ORMul, [VT x; VD s] =>        (* a 0-d tensor (e.g. the result of dot / sum) used as a scalar *)
+      match dshape s with [] => VT (mul_scalar x (dget s [])) | _ => VErr EArgs end
   | OAdd, [VT x; VT y] => tt_binop add add_bcast x y
   | OAdd, [VT x; VS _ s] => VT (add_scalar x s)
   | ORAdd, [VT x; VS _ s] => VT (add_scalar x s)
